@@ -50,6 +50,41 @@ EXPECTED_FAMILIES = (
     'TopKWordNGrams', 'PatternFrequency', 'CalibrationHistogram',
 )
 
+# Mechanism keys the adapters assign to defects of the unchanged tree that were
+# reproduced by hand (candidates for known_findings.json / fix commits). Every
+# other violation gets the generic key '<Family>:<kind>' and is therefore new.
+CANDIDATE_DEFECT_KEYS = {
+    'topk-retrieval-klist-truncated-per-batch':
+        'TopKRetrieval.add truncates k_list to the batch\'s longest ranking; batches / '
+        'states of different width cannot be merged (broadcasting ValueError)  [C01, C11]',
+    'topk-retrieval-per-batch-k-changes-row-values':
+        'same truncation, visible as values: threat_score / mean_average_precision / '
+        'ndcg_score of a short ranking depend on the longest ranking in its batch  [C01]',
+    'topk-confusion-matrix-loses-k-after-second-batch':
+        'ConfusionMatrixAggFn.update_state uses _ConfusionMatrix.__add__, which returns a '
+        'plain _ConfusionMatrix: the TopK state loses `k` from the second batch on  [C01, C11]',
+    'fixed-size-sample-merge-mutates-operand':
+        'FixedSizeSample._merge_reservoirs pops from other.reservoir  [C11]',
+    'thresholded-retrieval-result-cached-stale':
+        '_ThresholdedConfusionMatrix.precision/recall/f1_score are cached_property: after '
+        'one result() later add()/merge() no longer change the result  [C11]',
+    'confusion-matrix-merge-states-rejects-empty-state':
+        'ConfusionMatrixAggFn.merge_states cannot take create_state() (None) on either '
+        'side  [C01 empty shard, C11 identity]',
+    'minmaxandcount-axis-merge-with-empty-state':
+        'MinMaxAndCount(axis=0).merge uses np.min((a, b), axis) -> inhomogeneous shape '
+        'when one side is still the scalar initial value  [C01, C11]',
+    'mean-and-variance-merge-nan-column-variance':
+        'MeanAndVariance.merge feeds NaN variances of value-less columns into the '
+        'pairwise formula (0 * nan), resets or drops operands whose var is all-NaN  [C01, C11]',
+    'unbounded-sampler-merge-empty-operand-raises':
+        'UnboundedSampler.merge(non-empty, fresh): zip(strict=True) over ()  [C01, C11]',
+    'value-accumulator-merge-empty-operand-raises':
+        'ValueAccumulator.merge(non-empty, fresh): zip(strict=True) over ()  [C01, C11]',
+    'tuple-mean-state-merge-empty-operand-raises':
+        'TupleMeanState.merge(non-empty, fresh): zip(strict=True) over ()  [C01, C11]',
+}
+
 NAN = float('nan')
 
 
@@ -222,6 +257,16 @@ class Adapter:
 
   def scribble(self, result):
     raise NotImplementedError
+
+  def invariants(self, rows, canon):
+    """Conservation laws of the one-batch result, in plain Python arithmetic.
+
+    Only for classes whose add() and merge() share one code path AND that offer
+    no merge-free evaluation of a batch: there a broken merge would break the
+    reference and the subject identically. Returns a list of diffs.
+    """
+    del rows, canon
+    return []
 
   # -- triage ------------------------------------------------------------------
   def mechanism(self, kind, diffs=None, exc=None, rows=None):
@@ -1059,8 +1104,10 @@ class TopKRetrievalAd(Adapter):
   def mechanism(self, kind, diffs=None, exc=None, rows=None):
     if exc and 'broadcast' in exc[1]:
       return 'topk-retrieval-klist-truncated-per-batch'
-    if diffs and all(any(m in p for m in RETRIEVAL_K_SENSITIVE)
-                     for p, _, _ in diffs):
+    lo, hi = self.lengths
+    short_rows = (lo < max(self.k_list)) if self.k_list else (lo != hi)
+    if short_rows and diffs and all(any(m in p for m in RETRIEVAL_K_SENSITIVE)
+                                    for p, _, _ in diffs):
       return 'topk-retrieval-per-batch-k-changes-row-values'
     return super().mechanism(kind, diffs, exc, rows)
 
@@ -1097,8 +1144,34 @@ class ThresholdedRetrievalAd(Adapter):
     prob = [r[2] for r in rows] if self.with_prob else None
     return ([r[0] for r in rows], [r[1] for r in rows], prob)
 
+  one_batch_path = 'add_return'
+
+  def observe(self, state, result):
+    # result() plus the public sufficient statistics (`confusion_matrix`
+    # property): precision / recall / f1 are cached properties of that object,
+    # so damage to an operand would otherwise hide behind a stale cache.
+    cm = state.confusion_matrix
+    return {'result': self.canon(result),
+            'confusion_matrix': {f: canonize(getattr(cm, f)) for f in
+                                 ('tp_trues', 'tp_preds', 'p_trues', 'p_preds')}}
+
+  def one_batch_obs(self, rows):
+    # add() returns the batch's own confusion matrix (never merged); its
+    # get_metric() is the library's merge-free evaluation of that batch.
+    if not rows:
+      return None
+    acc = self.make()
+    cm = self.feed(acc, rows)
+    out = {'thresholds': canonize(acc.thresholds)}
+    for m in acc._metrics:  # pylint: disable=protected-access
+      out[_key(m)] = canonize(cm.get_metric(m))
+    return ('ok', {'result': out,
+                   'confusion_matrix': {f: canonize(getattr(cm, f)) for f in
+                                        ('tp_trues', 'tp_preds', 'p_trues', 'p_preds')}})
+
   def mechanism(self, kind, diffs=None, exc=None, rows=None):
-    if kind in ('result_disturbs_later_updates', 'result_not_repeatable'):
+    if kind in ('result_disturbs_later_updates', 'result_not_repeatable') and (
+        not diffs or all(p.startswith('.result') for p, _, _ in diffs)):
       return 'thresholded-retrieval-result-cached-stale'
     return super().mechanism(kind, diffs, exc, rows)
 
@@ -1202,6 +1275,21 @@ class CalibrationHistogramAd(Adapter):
     for f in result._fields:
       a = getattr(result, f)
       a[...] = a + 3
+
+  def invariants(self, rows, canon):
+    # all generated values are dyadic and inside range=(0, 1): sums are exact
+    from fractions import Fraction as F
+    want = {
+        'num_examples_hist': F(2 * len(rows)),
+        'labels_hist': sum((F(r[0]) for r in rows), F(0)),
+        'predictions_hist': sum((F(r[1]) for r in rows), F(0)),
+    }
+    out = []
+    for k, w in want.items():
+      got = sum((F(v) for v in canon[k]), F(0))
+      if got != w:
+        out.append((f'.sum({k})', float(got), float(w)))
+    return out
 
 
 # ---------------------------------------------------------------------------
@@ -1345,7 +1433,7 @@ def check_inventory(ctx):
     if name in covered:
       ctx.count('inventory_classes_covered')
     elif name in NOT_A_SUBJECT:
-      ctx.observe('not_a_subject', f'{name}: {NOT_A_SUBJECT[name]}')
+      ctx.observe('uncovered_class', f'{name} (not a subject: {NOT_A_SUBJECT[name]})')
     else:
       ctx.observe('uncovered_class', name)
   for name in sorted(covered - set(found)):
